@@ -7,11 +7,14 @@ from props._cfg_common import TRUSTED, ASSUMPTIONS, TECHNIQUE
 
 PROP = "C15"
 LEVEL = "proof"
-THEOREMS = {"Properties.C15": ["C15_tree_checker", "C15_tree_derives", "C15_leftmost_checker", "C15_rightmost_checker", "C15_member_oracle"]}
+THEOREMS = {"Properties.C15": ["C15_tree_checker", "C15_tree_derives", "C15_leftmost_checker", "C15_rightmost_checker", "C15_member_oracle", "C15_leftmost_listing", "C15_rightmost_listing"]}
 LEVEL_TEXT = ("The property is about each object handed out, so it is decided per object by proved-sound checkers: tree_ok (every inner node with its "
               "children is a production, leaves are terminals) implies valid_tree and hence derivability of the yield; lstep_b / rstep_b imply a leftmost / "
               "rightmost rewriting step. Every tree and listing returned by get_cnf_parse_tree, the LL(1) parser and the recursive-descent parser is run "
-              "through them, and refusals are compared with the exact membership oracle. (The parsers themselves are not proved complete; FCFG trees are covered in C18.)")
+              "through them, and refusals are compared with the exact membership oracle. In addition get_leftmost_derivation and get_rightmost_derivation "
+              "are mirrored in Gallina and proved, for every valid tree, to list a leftmost / rightmost derivation from the root symbol to the yield "
+              "(C15_leftmost_listing, C15_rightmost_listing); the listings pyformlang returns are compared line by line with these models. "
+              "(The parsers themselves are not proved complete here - the LL(1) parser is in C14; FCFG trees are covered in C18.)")
 LEVEL_NOTE = "Trusted: Coq kernel; Python harness reading trees through value/sons. Instance-level certification of returned objects; completeness of parsers by correspondence only."
 RULE = ("random grammars x member and non-member words up to length 4: CYK trees (non-empty words, validated against the normal form pyformlang itself returns), "
         "LL(1) trees (grammars the model finds LL(1)), recursive-descent trees left and right (grammars without epsilon productions, unit cycles or left recursion), "
@@ -167,10 +170,11 @@ class _Ext:
             cw = cq([ci.ter(a) for a in w])
             if "tree" in r:
                 t = _coq_tree(r["tree"], ci)
-                items.append("(cfg_member %s %s, Some (tree_judge %s %s %s, derivation_ok (lstep_b %s) (root %s) %s %s, derivation_ok (rstep_b %s) (root %s) %s %s))" % (
-                    G, cw, H, t, cw, H, t, cw, _coq_forms(r["lm"], ci), H, t, cw, _coq_forms(r["rm"], ci)))
+                # last component: the listings are, line by line, those of the proved models lm / rm of the two methods
+                items.append("(cfg_member %s %s, Some (tree_judge %s %s %s, derivation_ok (lstep_b %s) (root %s) %s %s, derivation_ok (rstep_b %s) (root %s) %s %s, listings_same %s %s %s))" % (
+                    G, cw, H, t, cw, H, t, cw, _coq_forms(r["lm"], ci), H, t, cw, _coq_forms(r["rm"], ci), t, _coq_forms(r["lm"], ci), _coq_forms(r["rm"], ci)))
             else:
-                items.append("(cfg_member %s %s, @None ((bool * bool * bool) * bool * bool))" % (G, cw))
+                items.append("(cfg_member %s %s, @None ((bool * bool * bool) * bool * bool * (bool * bool)))" % (G, cw))
         ll1 = "is_ll1 %s" % G if case["op"] == "ll1_tree" else "true"
         return "(%s, [%s])" % (ll1, "; ".join(items))
 
@@ -190,7 +194,7 @@ class _Ext:
                 ctx.fail(op + "-wrong-exception", case, {"word": w, "impl": r})
                 return
             if "tree" in r:
-                tok, yok, rok, lm, rm = chk[1]
+                tok, yok, rok, lm, rm, (same_l, same_r) = chk[1]
                 if not (tok and yok and rok):
                     ctx.fail(op + "-invalid-tree", case, {"word": w, "tree": r["tree"], "valid,yield,root": [tok, yok, rok]})
                     return
@@ -202,6 +206,11 @@ class _Ext:
                 if not rm:
                     ctx.fail(op + "-rightmost-derivation", case, {"word": w, "listing": r["rm"]})
                     return
+                if not (same_l and same_r):
+                    # both listings are certified derivations of the word; they only differ, as lists of lines, from the mirrored models
+                    ctx.fail(op + "-derivation-listing-model", case, {"word": w, "lm": r["lm"], "rm": r["rm"], "same": [same_l, same_r]}, correspondence_only=True)
+                    return
+                ctx.dist["listings identical to the proved models lm / rm"] += 1
             else:
                 if r["refused"] != documented:
                     ctx.fail(op + "-wrong-exception", case, {"word": w, "impl": r})
